@@ -23,6 +23,9 @@ type repCase struct {
 	Lang   string `json:"language_tag"`
 	NoOpt  bool   `json:"no_language_option"` // build the report without any option (default English)
 	Vector string `json:"vector"`
+	// PreQuery: the decoder (constructor result) has every observer called, and a report built
+	// from it, before its single Decode
+	PreQuery bool `json:"queried_before_decode,omitempty"`
 	// Earlier: language options passed *before* Lang in the same constructor call (the last
 	// option decides). Warmup: tags for which a report of the same object is built first and
 	// discarded (regional / script variants of en and ja are unspecified in content, but
@@ -156,7 +159,13 @@ var checkC17 = register("C17/report", func(c repCase) string {
 	if (base == "en" && tag != language.English) || (base == "ja" && tag != language.Japanese) {
 		return ""
 	}
-	o, err := decode3(level, c.Vector, false)
+	var o obj3
+	var err error
+	if c.PreQuery {
+		o, err = decode3Pre(level, c.Vector)
+	} else {
+		o, err = decode3(level, c.Vector, false)
+	}
 	if err != nil || o.isNil() {
 		return fmt.Sprintf("well-formed vector rejected: %v", err)
 	}
@@ -302,7 +311,7 @@ func TestC17(t *testing.T) {
 					if nviol > 0 || !mine(i) {
 						continue
 					}
-					cs := repCase{Level: int(lv), Lang: lg, NoOpt: lg == "", Vector: pv.String()}
+					cs := repCase{Level: int(lv), Lang: lg, NoOpt: lg == "", PreQuery: i%4 == 2, Vector: pv.String()}
 					c.rec.Case("sweep", fmt.Sprintf("%v", cs), true, "sweep:lang="+lg)
 					if c.rec.SampleCount() < 3 && i%211 == 0 {
 						c.rec.Sample(cs)
@@ -364,6 +373,7 @@ func TestC17(t *testing.T) {
 			lg = ""
 		}
 		cs := repCase{Level: int(lv), Lang: lg, NoOpt: lg == "", Vector: v.String()}
+		cs.PreQuery = rapid.IntRange(0, 3).Draw(rt, "prequery") == 0
 		if lg != "" && rapid.IntRange(0, 3).Draw(rt, "multiopt") == 0 { // several language options: the last one decides
 			cs.Earlier = rapid.SliceOfN(rapid.SampledFrom([]string{"ja", "en", "und", "fr", "ja-JP"}), 1, 2).Draw(rt, "earlier")
 		}
